@@ -521,3 +521,6 @@ def check(run):
     from ..common_rules import shared_state_rule
     shared_state_rule(run, "R8", {"cache", "population", "mcache", "mdbcache"},
                       "cache operations")
+    from ..common_rules import derived_state_rule
+    derived_state_rule(run, "R9", "cache.Cache", {"_db"}, ["delete"],
+                       "the session cache")
